@@ -1,7 +1,7 @@
 """C15 Biot coupling terms are consistent.
 
 Spec: {"grid": grid spec, "lame": {"mu","lmbda"}, "alphas": [{"form": "float"|"int"|"tensor", "value": a}, ...],
-"field": {"c","G"}, "p0": float} (see gen/fv_mech.py).  pp.Biot is discretised with Dirichlet mechanical
+"field": {"c","G"}, "p0": float, "reuse": null|{...}} (see gen/fv_mech.py).  pp.Biot is discretised with Dirichlet mechanical
 conditions on the whole boundary and one coupling term per entry of `alphas`
 (`scalar_vector_mappings`); the coupling matrices are applied to u(x) = c + G x (cell centres,
 Dirichlet data u(x_f)) and to the constant pressure p0."""
@@ -22,7 +22,10 @@ RULE = (
     "Lame parameters, one or two coupling coefficients alpha in [0.2,1.5] given as float, int (1) or constant "
     "isotropic SecondOrderTensor under distinct keys, a linear displacement field u = c + G x (general, "
     "symmetric, skew, volumetric, translation) and a constant pressure p0 in [-3,3]; mechanical boundary all "
-    "Dirichlet with data u(x_f). Oracle (analytic), per coupling key k: displacement_divergence[k] u + "
+    "Dirichlet with data u(x_f). In three quarters of the cases the matrices come from a RE-discretisation after "
+    "in-place edits (boundary types of the same bc object from a Dirichlet/Neumann mix to all Dirichlet, Lame "
+    "parameters of the same tensor, node coordinates + compute_geometry), directly or there-and-back, same or new "
+    "Biot object, same or new data dictionary. Oracle (analytic), per coupling key k: displacement_divergence[k] u + "
     "boundary_displacement_divergence[k] bc = alpha_k tr(G) |cell| in every cell; scalar_gradient[k] p0 = "
     "-alpha_k p0 n_f on every face and component; 1e-9 of the magnitude of the summed terms. Non-trivial = "
     ">= 2 cells, tr(G) != 0 and p0 != 0; distinct = hash of spec."
@@ -45,7 +48,10 @@ ASSUMPTIONS = [
 ]
 REQUIRED = {"dim2": 0.2, "dim3": 0.2, "alpha-float": 0.2, "alpha-tensor": 0.2, "two-keys": 0.15,
             "field-general": 0.15, "field-rotation": 0.02, "kind-tri": 0.02, "kind-tet": 0.01,
-            "kind-poly": 0.02, "kind-polyx": 0.01, "perturbed": 0.05}
+            "kind-poly": 0.02, "kind-polyx": 0.01, "perturbed": 0.05,
+            "reuse-none": 0.1, "reuse-bc-edited": 0.15, "reuse-geometry-edited": 0.05, "reuse-stiffness-edited": 0.05,
+            "reuse-back": 0.08, "reuse-forward": 0.08, "reuse-same-discr": 0.08, "reuse-new-discr": 0.08,
+            "reuse-same-data": 0.08, "reuse-new-data": 0.08}
 
 _f = lambda lo, hi: st.floats(lo, hi, allow_nan=False, allow_infinity=False, allow_subnormal=False, width=64)  # noqa: E731
 
@@ -71,7 +77,8 @@ def _spec(draw, tier):
         g["merge"] = [False] * len(g["merge"])  # no hanging nodes (singular local systems), see C13
     alphas = draw(st.lists(_alpha(), min_size=1, max_size=2))
     return {"grid": g, "lame": draw(fm.lame_spec()), "alphas": alphas, "field": draw(fm.displacement_spec(kinds=_FIELD_KINDS)),
-            "p0": draw(st.sampled_from([1.0, -1.0]) | _f(-3, 3))}
+            "p0": draw(st.sampled_from([1.0, -1.0]) | _f(-3, 3)),
+            "reuse": draw(fm.reuse_spec(("mix", "mix", "all_dir", "one_dir")))}
 
 
 def strategy(tier):
@@ -101,7 +108,17 @@ def check(spec):
             alphas[key] = int(a["value"])
         else:
             alphas[key] = float(a["value"])
-    M = fm.discretize_biot(g, spec["lame"], bc, alphas)
+    # single discretisation, or re-discretisation after in-place edits of bc types (other state: a Dirichlet /
+    # Neumann mix, final state: all Dirichlet) / geometry / stiffness; asserted on the last discretisation
+    reuse = spec.get("reuse")
+
+    def other_types(bc0):
+        _, d0, n0 = fm.build_vbc(bc0, g)
+        return d0, n0
+
+    states = fm.reuse_states(g, reuse, (is_dir, is_neu), spec["lame"], other_types)
+    M = fm.discretize_sequence(g, "biot", states, same_discr=bool(reuse and reuse["same_discr"]),
+                               same_data=bool(reuse and reuse["same_data"]), alphas=alphas)
 
     u = fm.flat(fm.displacement_at(fs, g.cell_centers, nd))
     bv = fm.flat(fm.linear_bc_values(g, fs, spec["lame"], is_dir, is_neu))
@@ -127,7 +144,7 @@ def check(spec):
                       what=f"[{key}] scalar_gradient p0 vs -alpha p0 n_f")
 
     meta = grid_meta(spec["grid"])
-    labels = list(meta["labels"]) + ["field-" + fs["kind"]]
+    labels = list(meta["labels"]) + ["field-" + fs["kind"]] + fm.reuse_labels(reuse)
     labels += sorted({"alpha-" + a["form"] for a in spec["alphas"]})
     if len(spec["alphas"]) == 2:
         labels.append("two-keys")
